@@ -397,7 +397,7 @@ class LinearForm(BasicForm):
     def __call__(self, *tests, **kwargs):
 
         # Use free variables if given and available
-        expr = self._update_free_variables(**kwargs)
+        subs = self._free_variables_subs(**kwargs)
 
         # Make sure that 'values' is always a list
         if len(tests) == 1:
@@ -407,10 +407,11 @@ class LinearForm(BasicForm):
         else:
             values = tests
 
-        # Substitute variables with given values in linear expression
+        # Substitute variables with given values in linear expression; free
+        # variables and arguments are replaced at once
         variables = self.variables
-        subs      = dict(zip(variables, values))
-        expr, _   = expr._xreplace(subs)
+        subs.update(zip(variables, values))
+        expr, _   = self.expr._xreplace(subs)
 
         return expr
 
@@ -510,7 +511,7 @@ class BilinearForm(BasicForm):
     def __call__(self, trials, tests, **kwargs):
 
         # Use free variables if given and available
-        expr = self._update_free_variables(**kwargs)
+        subs = self._free_variables_subs(**kwargs)
 
         # If needed, convert positional arguments to lists
         if not is_sequence(trials, vector=isinstance(trials, VectorFunction)): trials = [trials]
@@ -519,10 +520,11 @@ class BilinearForm(BasicForm):
         # Concatenate input values into single list
         values = [*trials, *tests]
 
-        # Substitute variables with given values in bilinear expression
+        # Substitute variables with given values in bilinear expression; free
+        # variables and arguments are replaced at once
         variables = [*self.variables[0], *self.variables[1]]
-        subs      = dict(zip(variables, values))
-        expr, _   = expr._xreplace(subs)
+        subs.update(zip(variables, values))
+        expr, _   = self.expr._xreplace(subs)
 
         return expr
 
